@@ -10,5 +10,8 @@ CONSTANTS
   Dev_IsAfterStrict = FALSE
   Dev_NoHasHead = FALSE
   Dev_NoParentAclCheck = FALSE
+  Dev_StaleScratch = FALSE
+  Dev_MemoWriter = FALSE
+  Dev_RollbackOnlyHeads = FALSE
 INVARIANT Emit
 CHECK_DEADLOCK FALSE
